@@ -334,6 +334,45 @@ func c18(c *Ctx) {
 		}
 		r.Check(n >= 1, "C18.F5", "module", "textual id readers found", "-", itoa(n), "no robust.Id built from a strconv parse (vacuity guard)")
 	}
+	// the value produced by an encoder is what the copy produced: no field of the destination is reassigned afterwards
+	// (clearing "fields that do not belong to this type" breaks messages whose type was rewritten, e.g. the marked message of death)
+	for _, name := range []string{"robust.(*Message).ProtoMessage", "robust.(*Message).CopyToProtoMessage"} {
+		fi := c.P.Func(name)
+		if fi == nil || fi.Body() == nil {
+			continue
+		}
+		info := fi.Info()
+		// destination: a local / parameter of type *pb.RobustMessage
+		nClr := 0
+		ast.Inspect(fi.Body(), func(n ast.Node) bool {
+			as, ok := n.(*ast.AssignStmt)
+			if !ok {
+				return true
+			}
+			for i, l := range as.Lhs {
+				se, ok := ast.Unparen(l).(*ast.SelectorExpr)
+				if !ok {
+					continue
+				}
+				fv := astx.FieldSel(info, se)
+				if fv == nil || fv.Pkg() == nil || fv.Pkg().Path() != pathProto {
+					continue
+				}
+				// assignment of a constant / zero value to a field of the encoded message
+				if len(as.Rhs) == len(as.Lhs) {
+					if tv, ok := info.Types[as.Rhs[i]]; ok && (tv.Value != nil || tv.IsNil()) {
+						nClr++
+						r.Fail("C18.F1", fi.Name(), "encoded field "+fv.Name()+" is not overwritten after the copy", c.P.Pos(as.Pos()),
+							"the encoder resets "+fv.Name()+" to a constant after copying it (for some message types): a message whose type was rewritten — the entry marked as message of death — loses the field (its client message id), and the two encoders disagree")
+					}
+				}
+			}
+			return true
+		})
+		if nClr == 0 {
+			r.Ok("C18.F1", fi.Name(), "encoded fields are not overwritten after the copy", c.P.Pos(fi.Node().Pos()), "no constant assignment to a field of the protobuf message")
+		}
+	}
 	// enum agreement
 	c.c18Enums()
 	// sibling agreement of the decoder's call sites: the default id is robust.IdFromRaftIndex(<raft index>)
